@@ -14,7 +14,9 @@ import (
 )
 
 // reqwrite <proxy 0|1> script…  with script tokens (hex fields):
-//   M:method U:url Q:k:v (query arg) H:k:v HA:k:v (Add) HO:host B:body BS:declared:pieces PA:k:v (post arg) CC ND CK:k:v TR:k:v
+//
+//	M:method U:url Q:k:v (query arg) H:k:v HA:k:v (Add) HO:host B:body BS:declared:pieces PA:k:v (post arg) CC ND CK:k:v TR:k:v
+//
 // -> <wire> <err 0|1> <state dump…> | intended: method body ; net/http: method requestURI host body
 func opReqWrite(a []string) []string {
 	var r protocol.Request
